@@ -45,6 +45,8 @@ def api_job(eng, tables, prop, tname, policy, deadline, max_paths=None, initial=
         problems = []
         use_tag = tagged and ctx.choose(2, "tagged") == 1
         data = ctx.fresh_opaque("input", "vec")
+        ctx.side["input_ident"] = data.opaque.ident
+        ctx.side["mode"] = "tagged" if use_tag else "plain"
         entry = "<%s as TaggedCborSerializable>::from_tagged_slice" if use_tag else "<%s as CborSerializable>::from_slice"
         r = ctx.call(entry % path, [slice_ref(data)])
         oc = models.decide_parse(ctx, data)
@@ -123,6 +125,12 @@ def api_job(eng, tables, prop, tname, policy, deadline, max_paths=None, initial=
         node = ctx.side.get("node")
         if m is None:
             return
+        if node is None:
+            # a panic inside the decoder: the parse of the input was decided by the parser stub
+            oc = ctx.side.get("parsed", {}).get(ctx.side.get("input_ident"))
+            if oc is not None and oc[0] == "ok":
+                node = oc[1]
+                ctx.side.setdefault("exact", oc[2])
         hexin = ""
         variants = [b""]
         if node is not None:
@@ -265,17 +273,31 @@ def order_job(eng, tables, prop, deadline, text_max=2, max_paths=None, initial=N
     return job
 
 
-def canonicalize_job(eng, tables, prop, n_params, deadline, max_paths=None, initial=None, bfs=False, slice_s=None):
+def canonicalize_job(eng, tables, prop, n_params, deadline, max_paths=None, initial=None, bfs=False, slice_s=None,
+                     long_text=None):
     """CoseKey::canonicalize with either ordering: encoded keys strictly ascending, label-value pairs
     unchanged, idempotent, and the canonicalised key re-encodes to the same map after a decode."""
     import jobs_encode
-    job = JobResult("canonicalize:%d" % n_params)
+    job = JobResult("canonicalize:%d%s" % (n_params, ":long-text" if long_text else ""))
     seen = {}
     I = eng.impls
 
     def harness(ctx):
         ctx.side["label_bytes"] = True
-        key = jobs_encode.gen_key(ctx, eng, tables, n_params, text_max=2)
+        if long_text:
+            # n_params text labels whose lengths are picked from `long_text` (ASCII content): the
+            # comparison of long labels that share a prefix
+            key = jobs_encode.gen_key(ctx, eng, tables, 0)
+            elems = []
+            for i in range(n_params):
+                ln = long_text[ctx.choose(len(long_text), "long-len@%d" % i)]
+                bs = [Sc("u8", ctx.fresh_bv("k.p%d.text[%d]" % (i, j), 8)) for j in range(ln)]
+                for b in bs:
+                    ctx.assume(z3.ULT(b.v, 0x80))
+                elems.append(Tup([Adt("Label", "Text", [VecV(bs, None, "string")]), Adt("Value", "Null", [])]))
+            key.fields[I.struct_fields("CoseKey").index("params")] = VecV(elems, None, "vec")
+        else:
+            key = jobs_encode.gen_key(ctx, eng, tables, n_params, text_max=2)
         params = f_(I, key, "params")
         # distinct values so that pairs can be tracked; distinct labels (a well-formed key)
         for i, t in enumerate(params.elems):
